@@ -1397,6 +1397,11 @@ func (fr *Frame) step(st *State, in ssa.Instruction) bool {
 			fr.runDeferred(st, d)
 		}
 	case *ssa.Go:
+		if fr.goHasNoEffect(x) {
+			// the started call is declared (contract) to write nothing of the modelled state
+			ex.trustedUsed["go statement starting a call whose contract assigns nothing: no effect on the sequential view ("+fr.fn.Name()+")"] = true
+			break
+		}
 		ex.note("go statement in %s: treated as an environment step (all heap havocked)", fr.fn.Name())
 		ex.havocAll(st, "go statement")
 	case *ssa.Range:
